@@ -587,13 +587,47 @@ pub fn parse_j(text: &str) -> J {
     conv(&serde_json::from_str(text).expect("parse_j: fixed text"))
 }
 
+/// DICTIONARY at the level of shapes: every string literal of the library's source as a member name, in objects
+/// of both flags, beside other members, inside an array / a tuple / a OneOf; member names whose length sits at a
+/// threshold the source mentions, with a twin that differs only in the last character
+pub fn dict_shapes() -> Vec<JsonShape> {
+    let num = JsonShape::Number { optional: false };
+    let st = JsonShape::String { optional: false };
+    let mut out = Vec::new();
+    for w in crate::dict::words() {
+        for o in [false, true] {
+            let one = obj(vec![(w.as_str(), num.clone())], o);
+            let three = obj(vec![(w.as_str(), st.clone()), ("name", st.clone()), ("retries", JsonShape::Number { optional: true })], o);
+            out.push(one.clone());
+            out.push(three.clone());
+            out.push(arr(one.clone(), o));
+            out.push(tup(vec![three.clone(), num.clone()], o));
+            out.push(one_of(vec![one, st.clone()], o));
+            out.push(obj(vec![("outer", three)], o));
+        }
+    }
+    for n in crate::dict::sizes(2000) {
+        let k = "k".repeat(n);
+        out.push(obj(vec![(format!("{k}a").as_str(), num.clone())], false));
+        out.push(obj(vec![(format!("{k}b").as_str(), num.clone())], false));
+        out.push(obj(vec![(k.as_str(), num.clone())], true));
+    }
+    out
+}
+
 /// WIDTH at the level of shapes: objects of n members, OneOfs of n variants, tuples of n elements (n around
 /// powers of two up to 65), each with a twin whose LAST entry alone differs (another kind / made optional)
 pub fn wide_shapes() -> Vec<(JsonShape, JsonShape)> {
     let num = JsonShape::Number { optional: false };
     let st = JsonShape::String { optional: false };
     let mut out = Vec::new();
-    for n in [5usize, 8, 9, 16, 17, 32, 33, 64, 65] {
+    let mut ns = vec![5usize, 8, 9, 16, 17, 32, 33, 64, 65];
+    for k in crate::dict::sizes(130) {
+        if k >= 3 && !ns.contains(&k) {
+            ns.push(k);
+        }
+    }
+    for n in ns {
         let keys: Vec<String> = (0..n).map(|i| format!("k{i:03}")).collect();
         for (last_a, last_b) in [(num.clone(), st.clone()), (num.clone(), JsonShape::Number { optional: true }), (arr(num.clone(), false), arr(st.clone(), false))] {
             let mk = |last: &JsonShape| -> JsonShape {
